@@ -6,7 +6,13 @@ CONSTANTS
   MaxSpans = 3
   CfgNames = {"a", "a_ra", "ra"}
   Samplers = {"dynamic", "emadynamic", "emathroughput", "windowedthroughput", "totalthroughput"}
-INVARIANTS TypeOK NFSound PermutationInvariant DuplicationInvariant IrrelevantCellsInvariant PairsDistinct OutConsistent
+  GhostFields = {"z"}
+  ProvValSet = {"s:x", "i:7", "b:true"}
+  ProvMaxSpans = 3
+  ProvCfgNames = {"a", "a_ra", "ra"}
+  ProvUTL = {TRUE, FALSE}
+  ProvMix = "all"
+INVARIANTS TypeOK NFSound PermutationInvariant DuplicationInvariant IrrelevantCellsInvariant PairsDistinct PayloadSound ProvenanceInvariant AnyProvenanceInvariant OutConsistent
 CHECK_DEADLOCK FALSE
 ACTION_CONSTRAINT Dump
 VIEW View
